@@ -182,3 +182,40 @@ Proof.
   intros Hne. unfold walk_stop_at. rewrite heap_visit_blocks_run by exact Hne. rewrite stop_at_run.
   rewrite N.add_0_l, N.sub_0_r. destruct ((0 <? k) && (k <=? N.of_nat (length (all_calls vb pages)))); reflexivity.
 Qed.
+
+(* ---- the walk changes no page's set of live blocks, and keeps the page invariant ---- *)
+Lemma walk_pages_after_live S visitor vb pages : Forall (fun x => page_Inv (snd x)) pages -> forall s,
+  map (fun x => (fst x, page_live (snd x))) (walk_pages_after S visitor vb pages s) =
+  map (fun x => (fst x, page_live (snd x))) pages.
+Proof.
+  induction 1 as [|[pg p] r Hx Hr IH]; intros s; [reflexivity|]. cbn [walk_pages_after snd] in *.
+  destruct (visitor s (area_call pg p)) as [s1 ok]. destruct ok; cbn [negb]; [|reflexivity].
+  destruct vb.
+  - destruct (area_visit_blocks S visitor pg p s1) as [[s2 tr] res]. cbn [map fst snd].
+    rewrite (collect_page_live p true Hx). destruct res; [rewrite IH|]; reflexivity.
+  - cbn [map fst snd]. rewrite IH. reflexivity.
+Qed.
+
+Lemma walk_pages_after_inv S visitor vb pages : Forall (fun x => page_Inv (snd x)) pages -> forall s,
+  Forall (fun x => page_Inv (snd x)) (walk_pages_after S visitor vb pages s).
+Proof.
+  induction 1 as [|[pg p] r Hx Hr IH]; intros s; [constructor|]. cbn [walk_pages_after snd] in *.
+  destruct (visitor s (area_call pg p)) as [s1 ok]. destruct ok; cbn [negb]; [|constructor; assumption].
+  destruct vb.
+  - destruct (area_visit_blocks S visitor pg p s1) as [[s2 tr] res]. constructor.
+    + cbn [snd]. apply collect_inv. exact Hx.
+    + destruct res; [apply IH|exact Hr].
+  - constructor; [exact Hx|apply IH].
+Qed.
+
+(* a completed walk with blocks leaves every page collected: nothing on local_free / thread_free *)
+Lemma walk_pages_after_complete S visitor pages : Forall (fun x => page_Inv (snd x)) pages ->
+  (forall s0 c, snd (visitor s0 c) = true) -> forall s,
+  Forall (fun x => local_free (snd x) = [] /\ thread_free (snd x) = []) (walk_pages_after S visitor true pages s).
+Proof.
+  intros HI Hacc. induction HI as [|[pg p] r Hx Hr IH]; intros s; [constructor|]. cbn [walk_pages_after snd] in *.
+  pose proof (Hacc s (area_call pg p)) as Ha. destruct (visitor s (area_call pg p)) as [s1 ok]. cbn in Ha. subst ok. cbn [negb].
+  unfold area_visit_blocks. rewrite visit_indices_run.
+  destruct (run_calls_accepting S visitor s1 (map (VBlock pg) (page_visit_blocks p)) Hacc) as (s2 & E). rewrite E.
+  constructor; [|apply IH]. cbn [snd]. destruct (page_collect_force_complete p Hx) as (Hl & Ht & _). split; assumption.
+Qed.
